@@ -127,7 +127,9 @@ class JsonParser(object):
         json_steps = json_element.get("steps", [])
         steps = self.parse_steps(json_steps)
         filename, line = location.split(":")
-        scenario = model.Scenario(filename, line, keyword, name, tags, steps)
+        # -- NOTE: JSON scenario steps contain the background steps already.
+        scenario = model.Scenario(filename, line, keyword, name, tags, steps,
+                                  background_steps=[])
         scenario.description = description
         return scenario
 
